@@ -379,8 +379,19 @@ def run_queries(d):
         out["pinsof"] = {}
     else:
         if kind == "structure":
-            with lk.Solver():
+            with lk.Solver() as sol0:
                 st = base.put()
+                if d.get("lose") is not None:
+                    # a neighbour wired to ALL modes of one base name is removed again: the placement loses those pins,
+                    # and its queries must speak about the pins it still has
+                    lb = bn[d["lose"]]
+                    if d["modes"]:
+                        nb = lk.Waveguide(1.0).expand_mode(list(d["modes"])).put()
+                        lk.connect_all(st, lb, nb, "a0")
+                    else:
+                        nb = lk.Waveguide(1.0).put()
+                        lk.connect(st.pin[lb], nb.pin["a0"])
+                    sol0.remove_structure(nb)
         else:       # a placed sub-solver exposing the pins with their modes
             with lk.Solver() as inner:
                 s0 = base.put()
@@ -396,7 +407,8 @@ def run_queries(d):
         out["modes"] = {b: guard(lambda b=b: list(st.get_pin_modenames(b))) for b in queried}
         out["pinsof"] = {b: guard(lambda b=b: [(p.basename, p.mode_name) for (s, p) in st.get_pins(b)])
                          for b in queried}
-    want = {(bn[k], m) for k in range(comp["n"]) for m in (d["modes"] or [None])}
+    want = {(bn[k], m) for k in range(comp["n"]) for m in (d["modes"] or [None])
+            if not (kind == "structure" and d.get("lose") == k)}
     if set(pins) != want or len(pins) != len(want):
         raise ValueError("object's pins differ from what was built")
     return pins, out
@@ -417,6 +429,8 @@ class QueryStream(Stream):
             out.append({"comp": g["comps"][0], "modes": rng.sample(MODE_POOL, nm),
                         "kind": rng.choice(["model", "solved", "structure", "structure", "substructure", "substructure"]),
                         "mode_major": rng.random() < 0.6})
+            if out[-1]["kind"] == "structure" and rng.random() < 0.5:
+                out[-1]["lose"] = rng.randrange(g["comps"][0]["n"])
             if rng.random() < 0.5:
                 n = g["comps"][0]["n"]
                 out[-1]["bnames"] = rng.sample(["in_1", "in_2", "in", "port_a1", "p_0", "x", "o_1_2"], n)
